@@ -143,8 +143,8 @@ PROPS = {
         'rule': T_RULE + ('Oracle: every block returned by any thread is aligned, in range, equal to the target if one was given, and '
                           'disjoint from every block held by any thread at that moment; at the quiescent end the metadata equals the '
                           'blocks handed out. Sequential part: ' + S_RULE),
-        'partial': ('all-interleavings statement not a theorem: sequential freshness/disjointness proved (seq_block_fresh via the '
-                    'lower refinement), concurrent part explored by scheduler-controlled runs replayed on the Lean interleaving semantics'),
+        'partial': ('all-interleavings statement not a theorem: sequential freshness/disjointness proved at the public interface (seq_get_fresh, every '
+                    'history), concurrent part explored by scheduler-controlled runs replayed on the Lean interleaving semantics'),
         'assumptions': ['hooked atomics: a yield point before every Atom access; compare_exchange never fails spuriously (x86-64/strong CAS)'],
     },
     'C02': {
@@ -155,8 +155,8 @@ PROPS = {
         'rule': S_RULE + (' Ownership oracle: a get succeeds only with an aligned in-range block all of whose frames were free and marks exactly '
                           'them; a put succeeds iff the shadow model allows it (all frames allocated, whole-huge-frame rule) and frees exactly '
                           'them; a failing call changes no frame.'),
-        'partial': ('proved for the lower allocator (put/get_at/get refine the ownership spec incl. invariant); the upper-level wrappers '
-                    '(tree/slot counters never mask or fail a lower result) are carried by the correspondence'),
+        'partial': ('sequentially proved at full strength for get/put/drain/change_tree in every reachable state; the remaining assumption (the lower '
+                    'initialisation programs establish the lower invariant for every frame count) is carried by the correspondence'),
         'assumptions': [],
     },
     'C03': {
@@ -166,7 +166,7 @@ PROPS = {
         'rule': T_RULE + ('Oracle: no call panics (panic capture per thread) and every free of a block the thread holds returns Ok. '
                           'The known finding K1 (spin in partial_put_huge exhausts RETRIES) is matched by its panic message.'),
         'partial': ('the property is refuted for the unchanged code by a kernel-checked schedule (K1, recorded as known finding); sequential '
-                    'panic-freedom of the lower allocator is proved; other concurrent panic sites explored, not proved'),
+                    'panic-freedom and success of held frees proved for every history; other concurrent panic sites explored, not proved'),
         'assumptions': ['hooked atomics: a yield point before every Atom access; compare_exchange never fails spuriously'],
     },
     'C04': {
@@ -178,8 +178,8 @@ PROPS = {
                           'shadow allocation state; tree_stats().free_frames = that minus the frames hidden by offline trees; per-class sums; '
                           'stats_at / is_free probes; validate() must not panic while no tree is offline. Concurrent: the same at the quiescent '
                           'end of every explored schedule. ' + T_RULE),
-        'partial': ('exact views proved from the lower invariant (counter = free frames of the huge frame, entirely-free iff full counter, '
-                    'stats_at exact and read-only); fast = exact - offline and validate() need the upper invariant: carried by the correspondence'),
+        'partial': ('exact views (stats, stats_at huge/tree) and the per-tree identity fast = exact - hidden proved; that the programs tree_stats()/validate() '
+                    'sum the counters without panic and the concurrent end states are carried by the correspondence'),
         'assumptions': [],
     },
     'C05': {
@@ -205,8 +205,8 @@ PROPS = {
                  'free-all: exhaust with a random order then with base frames (every further get must fail, C10 oracle), free everything; '
                  'allocate-all: gets must fail, everything is freed piecewise (tree/huge/small orders), then the cycle repeats; ownership '
                  'and accounting oracles after every call. ' + S_RULE),
-        'partial': ('arithmetic of the initial counters proved for every frame count (sum = frames, never beyond the huge frame, full iff inside '
-                    'the range, allocate-all split); that the init programs write them and the matching bits is carried by the correspondence'),
+        'partial': ('Trees::new proved to establish the upper invariant from the lower one; arithmetic of the initial counters proved for every frame count; '
+                    'that free_all/reserve_all write them and the matching bits (lower invariant) is carried by the correspondence'),
         'assumptions': [],
     },
     'C09': {
@@ -215,20 +215,20 @@ PROPS = {
         'runs': {'quick': [seq('mixed', 30, 150), seq('malformed', 10, 150), seq('init', 10, 30)],
                  'thorough': [seq('mixed', 800, 300), seq('malformed', 200, 300), seq('change', 200, 300), seq('drain', 200, 300), seq('init', 300, 60), seq('zone', 100, 300)]},
         'rule': S_RULE + ' Oracle: no public call (new, get, put, drain, change_tree, stats, tree_stats, stats_at, is_free, validate while online) panics; every call runs under catch_unwind.',
-        'partial': ('proved: the lower allocator never panics sequentially under its invariant (all roll-back/assert sites unreachable, no index out of '
-                    'bounds); check() total. Upper-level counter arithmetic (overflow-checked build) is carried by the correspondence'),
+        'partial': ('proved: no call of any sequential history (get/put/drain/change_tree/stats after Trees::new) panics; carried by the correspondence: '
+                    'lower initialisation programs for every frame count incl. 0, tree_stats/validate/stats_at(0)/is_free'),
         'assumptions': ['harness built with overflow-checks on, debug-assertions off (assertions of the release configuration)'],
     },
     'C10': {
-        'oracles': ['C10'],
+        'oracles': ['C10'], 'bv_decide': True,
         'geoms': {'quick': ['default', 'th1'], 'thorough': ALLG},
         'runs': {'quick': [seq('drain', 30, 150), seq('mixed', 15, 150)],
                  'thorough': [seq('drain', 800, 300), seq('mixed', 400, 300), seq('init', 200, 60), seq('single', 100, 300)]},
         'rule': S_RULE + (' Oracle (policies that never rate Invalid): directly after drain() a base-order get fails with Memory only if no tree outside '
                           'offline trees has a free frame in the shadow state; a targeted get fails only if its block is not entirely free or lies in '
                           'an offline tree (and succeeds only on free blocks: ownership oracle). Drain flavor: a drain precedes most probes.'),
-        'partial': ('proved: the tree search visits every tree (search_visits_all), a non-empty candidate buffer yields a candidate, steal succeeds on '
-                    'an unreserved tree with enough frames; the composition through search_and_reserve/steal is carried by the correspondence'),
+        'partial': ('proved: drain clears all reservations; after a drain a base-order get succeeds whenever a tree has a positive counter (= a free frame '
+                    'outside offline trees); targeted gets are exact (C02); completeness of targeted gets carried by the correspondence'),
         'assumptions': [],
     },
     'C11': {
@@ -258,9 +258,8 @@ PROPS = {
         'rule': S_RULE + (' Change flavor: change_tree with/without id, class/free matchers, class changes, Offline/Online, ids beyond the table; '
                           'oracle: an offline tree hands out nothing (targeted and untargeted gets, all slots), its frames vanish from tree_stats '
                           'but not from stats, Online restores the counter to the lower free count exactly, validate after the last Online.'),
-        'partial': ('proved: Tree::change touches only a matching unreserved tree, Offline zeroes the counter, Online restores exactly the fetched '
-                    'count, an offline tree is skipped by steal/reserve/sync; that the fetched count is the tree\'s own lower count and the '
-                    'allocator-level statements are carried by the correspondence'),
+        'partial': ('change_tree proved against the upper invariant (no panic, only matching unreserved trees, Online exact, allocation state untouched); the '
+                    'history-level statement that no frame of an offline tree is handed out is carried by the correspondence'),
         'assumptions': ['model deviation: Online reads the lower counters before the tree update (the source inside the update closure); equivalent sequentially'],
     },
     'C21': {
